@@ -1179,7 +1179,9 @@ class TokenizerCore:
             if not raw_string and unescaped_sequences and self._peek and self._char in escapes:
                 unescaped_sequence = unescaped_sequences.get(self._char + self._peek)
                 if unescaped_sequence:
-                    self._advance(2)
+                    # One character at a time: the escaped character may be a line break
+                    self._advance()
+                    self._advance()
                     text += unescaped_sequence
                     continue
 
@@ -1209,7 +1211,9 @@ class TokenizerCore:
                     text += self._char + self._peek
 
                 if self._current + 1 < self.size:
-                    self._advance(2)
+                    # One character at a time: the escaped character may be a line break
+                    self._advance()
+                    self._advance()
                 else:
                     raise TokenError(f"Missing {delimiter} from {self._line}:{self._current}")
             else:
